@@ -112,8 +112,10 @@ class Control(BaseException):
 KINDS = {"Exception": lambda: Boom2("x"), "BaseException": lambda: Control(7), "SystemExit": lambda: SystemExit(3)}
 H_SITES = {"body": "before ${boom()} after", "include": "before <%include file='inc'/> after",
            "buffered-def": "<%def name='d()' buffered='True'>partial ${boom()}</%def>before ${d()} after",
-           "inherited": "<%inherit file='base'/>before ${boom()} after"}
-H_NORMAL = {"body": "before ok after", "include": "before inc ok cni after", "buffered-def": "before partial ok after", "inherited": "B(before ok after)"}
+           "inherited": "<%inherit file='base'/>before ${boom()} after",
+           # the exception is raised while the inheritance chain is set up (the expression naming the parent)
+           "inherit-expression": "<%inherit file=\"${context['boom']() and 'base'}\"/>before after"}
+H_NORMAL = {"body": "before ok after", "include": "before inc ok cni after", "buffered-def": "before partial ok after", "inherited": "B(before ok after)", "inherit-expression": "B(before after)"}
 
 
 def handler_case(LKm, cfg):
@@ -195,7 +197,7 @@ def handler_expected(cfg):
     if pre and cfg["error_handler"] == "accept":
         return ("returned", "before inc [ihandled][handled]")
     if cfg["error_handler"] == "accept":
-        return ("returned", {"body": "before [handled]", "include": "before inc [handled]", "buffered-def": "before [handled]", "inherited": "B(before [handled]"}[cfg["site"]])
+        return ("returned", {"body": "before [handled]", "include": "before inc [handled]", "buffered-def": "before [handled]", "inherited": "B(before [handled]", "inherit-expression": "[handled]"}[cfg["site"]])
     if cfg["error_handler"] == "decline" or not cfg["format_exceptions"]:
         return ("raised", "the same object")
     return ("returned", "error page naming %s" % {"Exception": "Boom2", "BaseException": "Control", "SystemExit": "SystemExit"}[cfg["exception"]])
